@@ -37,7 +37,8 @@ class Ctx:
         os.makedirs(self.work)
         if not os.environ.get("VERIF_KEEP"):
             atexit.register(lambda: shutil.rmtree(self.work, ignore_errors=True))
-        self.replays = os.path.join(VERIF, "replays", prop)
+        self.outdir = os.environ.get("VERIF_OUT", VERIF)   # evidence/ and replays/ of a run against a scratch copy go elsewhere
+        self.replays = os.path.join(self.outdir, "replays", prop)
         os.makedirs(self.replays, exist_ok=True)
         self.violations = []     # (what, replay path)
         self.known_hits = {}     # key -> [count, example]
@@ -160,8 +161,8 @@ class Ctx:
         coverage.setdefault("known_findings_hit", {k: v[0] for k, v in self.known_hits.items()})
         if self.notes:
             coverage.setdefault("notes", self.notes)
-        os.makedirs(os.path.join(VERIF, "evidence"), exist_ok=True)
-        with open(os.path.join(VERIF, "evidence", self.prop + ".json"), "w") as f:
+        os.makedirs(os.path.join(self.outdir, "evidence"), exist_ok=True)
+        with open(os.path.join(self.outdir, "evidence", self.prop + ".json"), "w") as f:
             json.dump(ev, f, indent=1)
         for key, (n, what, ex) in sorted(self.known_hits.items()):
             print("KNOWN-FINDING: property=%s %s [%s, %d case(s), e.g. %s]" % (self.prop, what, key, n, ex), flush=True)
